@@ -6,6 +6,20 @@ open Pistache Pistache.WriteQueue Pistache.EventLoop
 namespace Drv
 
 def stallOp : List String → Option String
+  | ["stall", nwS, sizeS, hold, nbS, sec] => do
+    -- a second batch asked for while the first is still blocked: the same writes again, delivered after the first
+    let base ← stallOp ["stall", nwS, sizeS, hold, nbS]
+    if sec != "1" then pure base else
+    let nw ← nwS.toNat?
+    let size ← sizeS.toNat?
+    let l0 : Loop := [{}]
+    let l1 := runLoop l0 ([Ev.block 0] ++ ((List.range nw).map fun i => Ev.queued 0 i (patternData i 8)) ++
+      ((List.range nw).map fun i => Ev.queued 0 (nw + i) (patternData i 8)) ++ [Ev.unblock 0, Ev.writable 0])
+    let a := l1.getD 0 {}
+    let ok := a.w.queue.isEmpty && a.w.settled.length == 2 * nw
+    let proms := (List.range (2 * nw)).map fun _ => s!"ok:{size}"
+    let head := (base.splitOn " recv=").headD ""
+    pure s!"{head} recv={if ok then 2 * nw * size else 0} match={if ok then "1" else "0"} promises={",".intercalate proms}"
   | ["stall", nwS, sizeS, _hold, nbS] => do
     let nw ← nwS.toNat?
     let size ← sizeS.toNat?
